@@ -2,6 +2,7 @@ import Mitx.Driver.Munkres
 import Mitx.Driver.Attempt
 import Mitx.Driver.Parser
 import Mitx.Driver.Grade
+import Mitx.Driver.StringG
 open Lean
 
 def dispatch (op : String) (j : Json) : Except String Json :=
@@ -9,6 +10,8 @@ def dispatch (op : String) (j : Json) : Except String Json :=
   | "munkres" => Drv.munkres j
   | "sched" => Drv.sched j
   | "parse" => Drv.parse j
+  | "string_clean" => Drv.stringClean j
+  | "string_check" => Drv.stringCheck j
   | "check" => Drv.gradeCheck j
   | "call" => Drv.gradeCall j
   | "parse_hist" => Drv.parseHist j
